@@ -441,8 +441,11 @@ impl<T: TagT> Actor for Probe<T> {
         Ok(())
     }
 
-    async fn stopped(&mut self, _ctx: &mut Context<Self>) {
+    async fn stopped(&mut self, ctx: &mut Context<Self>) {
         self.enter(Cb::Stopped, 0);
+        if let Some(t) = self.spec.stopped_timer.clone() {
+            self.register_timer(ctx, &t);
+        }
         for _ in 0..self.spec.stopped_yields {
             simrt::yield_now().await;
         }
